@@ -13,10 +13,14 @@
   of the model; that sub-claim is decided by the instance check of harness/props/c09.py only.
   Likewise `x % 2π` can return exactly `2π` in float64 for a tiny negative `x`
   (ulp-level); `wrap_range` below is the exact-arithmetic statement.
+
+  Amplitude samples are `Option Rat`, `none` standing for NaN: the `nht` / `quad` methods
+  return an all-NaN amplitude column (no error) where the upper envelope does not exist.
 -/
 import Proofs.Lemmas.Phase
 import Proofs.Lemmas.PhaseUnwrap
 import Proofs.Lemmas.PhaseNorm
+import Proofs.Lemmas.PhaseScale
 
 namespace C09
 open Phase
@@ -50,19 +54,41 @@ theorem wrapCentered_range (m h x : Rat) (hm : 0 < m) :
 
 /-! ## shapes; frequency is the scaled derivative of the phase that is returned -/
 
-/-- The three outputs of the frequency transform have the length of the input column,
-    provided the analytic-signal oracle preserves length. -/
-theorem ft_shapes (H : List Rat → List Rat × List Rat) (halfPi twoPi sr : Rat) (x : List Rat)
+/-- On a column of at least 2 samples the transform returns, and its three outputs have the
+    length of the input column, provided the analytic-signal oracle preserves length. -/
+theorem ft_shapes (H : List Rat → List Rat × List (Option Rat)) (halfPi twoPi sr : Rat) (x : List Rat)
+    (h2 : 2 ≤ x.length)
     (hU : (H x).1.length = x.length) (hA : (H x).2.length = x.length) :
-    (frequencyTransform H halfPi twoPi sr x).1.length = x.length ∧
-    (frequencyTransform H halfPi twoPi sr x).2.1.length = x.length ∧
-    (frequencyTransform H halfPi twoPi sr x).2.2.length = x.length := by
-  simp [frequencyTransform, hU, hA]
+    ∃ r, frequencyTransform? H halfPi twoPi sr x = some r ∧
+      r.1.length = x.length ∧ r.2.1.length = x.length ∧ r.2.2.length = x.length := by
+  refine ⟨frequencyTransform H halfPi twoPi sr x, ?_, ?_⟩
+  · simp [frequencyTransform?]; omega
+  · simp [frequencyTransform, hU, hA]
+
+/-- On fewer than 2 samples the transform raises (the implementation: `np.gradient` ValueError,
+    `quadrature_transform` IndexError), whatever the oracle. -/
+theorem ft_short_input_raises (H : List Rat → List Rat × List (Option Rat)) (halfPi twoPi sr : Rat)
+    (x : List Rat) (h : x.length < 2) : frequencyTransform? H halfPi twoPi sr x = none := by
+  simp [frequencyTransform?, h]
+
+/-- ... and where it returns, it returns the value of `frequencyTransform` (about which all
+    statements below are made). -/
+theorem ft_some_iff (H : List Rat → List Rat × List (Option Rat)) (halfPi twoPi sr : Rat)
+    (x : List Rat) (r : List Rat × List Rat × List (Option Rat)) :
+    frequencyTransform? H halfPi twoPi sr x = some r ↔
+      2 ≤ x.length ∧ r = frequencyTransform H halfPi twoPi sr x := by
+  unfold frequencyTransform?
+  split
+  · simp; omega
+  · simp only [Option.some.injEq]
+    constructor
+    · rintro rfl; exact ⟨by omega, rfl⟩
+    · rintro ⟨_, rfl⟩; rfl
 
 /-- With `(U, A) = H imf`: the returned phase is `wrap (U + π/2)`, the returned frequency is
     `sr/(2π) · gradient U` *of the same `U`* (the quarter-cycle offset does not reach the
     frequency), the returned amplitude is `A`; every phase sample is in `[0, 2π)`. -/
-theorem freq_is_scaled_gradient (H : List Rat → List Rat × List Rat) (halfPi twoPi sr : Rat)
+theorem freq_is_scaled_gradient (H : List Rat → List Rat × List (Option Rat)) (halfPi twoPi sr : Rat)
     (x : List Rat) (h2 : 2 ≤ (H x).1.length) (hm : 0 < twoPi) :
     let r := frequencyTransform H halfPi twoPi sr x
     r.1 = (H x).1.map (fun u => wrap twoPi (u + halfPi)) ∧
@@ -92,7 +118,7 @@ theorem unwrap_wrap (m : Rat) (hm : 0 < m) (U : List Rat) (hs : Slow (m / 2) U) 
 /-- The property's own wording: wherever the phase moves by less than π per sample, the
     returned frequency is the sample-rate-scaled derivative of the *unwrapped returned phase*:
     `IF = sr/(2π) · gradient (np.unwrap IP)`. -/
-theorem freq_is_gradient_of_unwrapped_output (H : List Rat → List Rat × List Rat)
+theorem freq_is_gradient_of_unwrapped_output (H : List Rat → List Rat × List (Option Rat))
     (halfPi twoPi sr : Rat) (x : List Rat) (h2 : 2 ≤ (H x).1.length) (hm : 0 < twoPi)
     (hs : Slow (twoPi / 2) (H x).1) :
     let r := frequencyTransform H halfPi twoPi sr x
@@ -108,59 +134,164 @@ theorem freq_is_gradient_of_unwrapped_output (H : List Rat → List Rat × List 
     apply List.map_congr_left; intro v _; ring
   rw [this, gradient_add_const (-c) hP2]
 
-/-! ## scale invariance -/
+/-! ## scale invariance
 
-/-- If rescaling the IMF by `c` leaves the oracle's phase unchanged and scales its amplitude
-    (validated on the real library for c > 0), then phase and frequency returned by the
-    frequency transform are unchanged and the amplitude scales with `c`. -/
-theorem ft_scale_invariant (H : List Rat → List Rat × List Rat) (halfPi twoPi sr c : Rat)
-    (x : List Rat) (hH : H (x.map fun v => c * v) = ((H x).1, (H x).2.map fun a => c * a)) :
-    let r := frequencyTransform H halfPi twoPi sr x
-    frequencyTransform H halfPi twoPi sr (x.map fun v => c * v)
-      = (r.1, r.2.1, r.2.2.map fun a => c * a) := by
-  simp [frequencyTransform, hH]
-
-/-- The oracle hypothesis of `ft_scale_invariant` for the `hilbert` branch follows from
-    linearity of the Hilbert transform, scale invariance of `angle` and homogeneity of `abs`. -/
-theorem hilbert_oracle_scale (O : Analytic) (c : Rat) (x : List Rat)
-    (hlin : O.hilbert (x.map fun v => c * v) = (O.hilbert x).map fun z => (c * z.1, c * z.2))
-    (hang : ∀ z, O.angle (c * z.1, c * z.2) = O.angle z)
-    (habs : ∀ z, O.abs (c * z.1, c * z.2) = c * O.abs z) :
-    O.hilbertH (x.map fun v => c * v) = ((O.hilbertH x).1, (O.hilbertH x).2.map fun a => c * a) := by
-  simp [Analytic.hilbertH, hlin, List.map_map, Function.comp_def, hang, habs]
-
-/-- … and for the `nht` branch from scale-freeness of the amplitude normalisation and
-    homogeneity of the envelope. -/
-theorem nht_oracle_scale (O : Analytic) (norm env : List Rat → List Rat) (c : Rat) (x : List Rat)
-    (hnorm : norm (x.map fun v => c * v) = norm x)
-    (henv : env (x.map fun v => c * v) = (env x).map fun a => c * a) :
-    O.nhtH norm env (x.map fun v => c * v)
-      = ((O.nhtH norm env x).1, (O.nhtH norm env x).2.map fun a => c * a) := by
-  simp [Analytic.nhtH, hnorm, henv]
-
-/-- … and for the `quad` branch likewise: the quadrature signal is built from the normalised
-    IMF only. -/
-theorem quad_oracle_scale (O : Analytic) (norm env sqrtT : List Rat → List Rat) (c : Rat) (x : List Rat)
-    (hnorm : norm (x.map fun v => c * v) = norm x)
-    (henv : env (x.map fun v => c * v) = (env x).map fun a => c * a) :
-    O.quadH norm env sqrtT (x.map fun v => c * v)
-      = ((O.quadH norm env sqrtT x).1, (O.quadH norm env sqrtT x).2.map fun a => c * a) := by
-  simp [Analytic.quadH, hnorm, henv]
+  `smul c x = x.map (c * ·)`; `smulAmp c a` multiplies every amplitude sample by `c` (NaN stays NaN).
+  The three theorems `ft_hilbert_scale`, `ft_nht_scale`, `ft_quad_scale` state the law
+  `frequency_transform(c·x) = (phase, frequency, c·amplitude)` of the run on `x` for `c > 0`.
+  Their only hypotheses on the library are contracts of single library functions, each evaluated
+  on the real functions on every run (harness stream `library_assumptions`):
+    hlin  scipy.signal.hilbert(c·x) = c·hilbert(x)
+    hang  np.angle(c·z) = np.angle(z)          habs  np.abs(c·z) = c·np.abs(z)
+    hEc   interp_envelope(c·x, 'combined') = c·interp_envelope(x, 'combined')   (same None-ness)
+    hEu   interp_envelope(c·x, 'upper')    = c·interp_envelope(x, 'upper')      (same None-ness)
+  All of them are contracts for `c > 0` only (`abs`, the angle and the combined envelope scale
+  with `|c|` / flip for `c < 0`), hence `0 < c` is a hypothesis throughout.
+  The reductions of the branch oracles are in Proofs/Lemmas/PhaseScale.lean. -/
 
 /-- Amplitude normalisation is scale free: with a homogeneous envelope oracle and at least
     one normalisation pass, `c • x` and `x` normalise to the same signal (the first division
     removes the factor; all later iterates coincide). -/
 theorem amplitudeNormalise_scale_free (E : Nat → List Rat → Option (List Rat)) (thresh : Rat)
-    (maxIters : Nat) (c : Rat) (x : List Rat) (hc : c ≠ 0) (hk : 1 ≤ maxIters)
+    (maxIters : Nat) (c : Rat) (x : List Rat) (hc : 0 < c) (hk : 1 ≤ maxIters)
     (env : List Rat) (hx : E 0 x = some env)
-    (hcx : E 0 (x.map fun v => c * v) = some (env.map fun v => c * v)) :
-    amplitudeNormalise E thresh maxIters (x.map fun v => c * v)
+    (hcx : E 0 (smul c x) = some (smul c env)) :
+    amplitudeNormalise E thresh maxIters (smul c x)
       = amplitudeNormalise E thresh maxIters x := by
   unfold amplitudeNormalise
   rw [hx, hcx]
   obtain ⟨n, rfl⟩ : ∃ n, maxIters = n + 1 := ⟨maxIters - 1, by omega⟩
   unfold anLoop
-  simp only [zipWith_div_smul hc]
+  simp only [smul, zipWith_div_smul (ne_of_gt hc)]
+
+/-- `hilbert` method: phase and frequency of `c·x` are those of `x`, the amplitude is `c` times
+    the amplitude of `x`. -/
+theorem ft_hilbert_scale (O : Analytic) (halfPi twoPi sr c : Rat) (x : List Rat) (_hc : 0 < c)
+    (hlin : O.hilbert (smul c x) = (O.hilbert x).map fun z => (c * z.1, c * z.2))
+    (hang : ∀ z, O.angle (c * z.1, c * z.2) = O.angle z)
+    (habs : ∀ z, O.abs (c * z.1, c * z.2) = c * O.abs z) :
+    let r := frequencyTransform O.hilbertH halfPi twoPi sr x
+    frequencyTransform O.hilbertH halfPi twoPi sr (smul c x) = (r.1, r.2.1, smulAmp c r.2.2) :=
+  frequencyTransform_scale_of_oracle _ halfPi twoPi sr c x (hilbertH_scale O c x hlin hang habs)
+
+/-- `nht` method on an oscillatory column (the combined envelope exists, i.e. the column is
+    amplitude-normalised at least once: `max_iters = 3` in the implementation): only homogeneity
+    of the two envelope interpolants is needed.  The amplitude may still be NaN (`envU x = none`:
+    fewer peaks than the upper envelope needs); then it is NaN for `c·x` as well. -/
+theorem ft_nht_scale (O : Analytic) (E : Nat → List Rat → Option (List Rat)) (thresh : Rat)
+    (maxIters : Nat) (envU : List Rat → Option (List Rat)) (halfPi twoPi sr c : Rat) (x : List Rat)
+    (hc : 0 < c) (hk : 1 ≤ maxIters) (env : List Rat) (hx : E 0 x = some env)
+    (hEc : E 0 (smul c x) = some (smul c env))
+    (hEu : envU (smul c x) = (envU x).map (smul c)) :
+    let H := O.nhtH (amplitudeNormalise E thresh maxIters) envU
+    let r := frequencyTransform H halfPi twoPi sr x
+    frequencyTransform H halfPi twoPi sr (smul c x) = (r.1, r.2.1, smulAmp c r.2.2) :=
+  frequencyTransform_scale_of_oracle _ halfPi twoPi sr c x
+    (nhtH_scale O _ envU c x (amplitudeNormalise_scale_free E thresh maxIters c x hc hk env hx hEc) hEu)
+
+/-- `nht` method on any column, oscillatory or not: with the Hilbert transform linear and the angle
+    scale invariant in addition, the law holds also where `amplitude_normalise` finds no envelope
+    and leaves the column as it is. -/
+theorem ft_nht_scale_any (O : Analytic) (E : Nat → List Rat → Option (List Rat)) (thresh : Rat)
+    (maxIters : Nat) (envU : List Rat → Option (List Rat)) (halfPi twoPi sr c : Rat) (x : List Rat)
+    (hc : 0 < c) (hk : 1 ≤ maxIters)
+    (hlin : O.hilbert (smul c x) = (O.hilbert x).map fun z => (c * z.1, c * z.2))
+    (hang : ∀ z, O.angle (c * z.1, c * z.2) = O.angle z)
+    (hEc : E 0 (smul c x) = (E 0 x).map (smul c))
+    (hEu : envU (smul c x) = (envU x).map (smul c)) :
+    let H := O.nhtH (amplitudeNormalise E thresh maxIters) envU
+    let r := frequencyTransform H halfPi twoPi sr x
+    frequencyTransform H halfPi twoPi sr (smul c x) = (r.1, r.2.1, smulAmp c r.2.2) := by
+  cases hx : E 0 x with
+  | some env => exact ft_nht_scale O E thresh maxIters envU halfPi twoPi sr c x hc hk env hx (by rw [hEc, hx]; rfl) hEu
+  | none =>
+    have hcx : E 0 (smul c x) = none := by rw [hEc, hx]; rfl
+    exact frequencyTransform_scale_of_oracle _ halfPi twoPi sr c x
+      (nhtH_scale_raw O _ envU c x (by simp [amplitudeNormalise, hx]) (by simp [amplitudeNormalise, hcx])
+        hlin hang hEu)
+
+/-- `quad` method on an oscillatory column: the quadrature signal is built from the normalised
+    column only, so homogeneity of the two envelope interpolants suffices. -/
+theorem ft_quad_scale (O : Analytic) (E : Nat → List Rat → Option (List Rat)) (thresh : Rat)
+    (maxIters : Nat) (envU : List Rat → Option (List Rat)) (sqrtT : List Rat → List Rat)
+    (halfPi twoPi sr c : Rat) (x : List Rat)
+    (hc : 0 < c) (hk : 1 ≤ maxIters) (env : List Rat) (hx : E 0 x = some env)
+    (hEc : E 0 (smul c x) = some (smul c env))
+    (hEu : envU (smul c x) = (envU x).map (smul c)) :
+    let H := O.quadH (amplitudeNormalise E thresh maxIters) envU sqrtT
+    let r := frequencyTransform H halfPi twoPi sr x
+    frequencyTransform H halfPi twoPi sr (smul c x) = (r.1, r.2.1, smulAmp c r.2.2) :=
+  frequencyTransform_scale_of_oracle _ halfPi twoPi sr c x
+    (quadH_scale O _ envU sqrtT c x (amplitudeNormalise_scale_free E thresh maxIters c x hc hk env hx hEc) hEu)
+
+/-- The envelope hypothesis `hx` of `ft_quad_scale` cannot be dropped (unlike for `nht`):
+    on a column without a combined envelope the clipped *raw* samples enter the quadrature
+    signal, and clipping does not commute with rescaling.  Witness: the ramp `[0, 1/4, 1/2, 3/4]`,
+    `c = 2`, a library meeting every contract for every input, yet a different phase.  (The real
+    `frequency_transform(x, 1, 'quad')` on the same ramp: phases differ by 1.047 rad; corpus case.) -/
+theorem ft_quad_scale_needs_envelope :
+    ∃ (O : Analytic) (E : Nat → List Rat → Option (List Rat)) (envU : List Rat → Option (List Rat))
+      (sqrtT : List Rat → List Rat) (x : List Rat) (c : Rat), 0 < c ∧
+      (∀ y, O.hilbert (smul c y) = (O.hilbert y).map fun z => (c * z.1, c * z.2)) ∧
+      (∀ z, O.angle (c * z.1, c * z.2) = O.angle z) ∧
+      (∀ z, O.abs (c * z.1, c * z.2) = c * O.abs z) ∧
+      (∀ k y, E k (smul c y) = (E k y).map (smul c)) ∧
+      (∀ y, envU (smul c y) = (envU y).map (smul c)) ∧
+      E 0 x = none ∧
+      (frequencyTransform (O.quadH (amplitudeNormalise E (1 / 10) 3) envU sqrtT) 0 4 1 (smul c x)).1
+        ≠ (frequencyTransform (O.quadH (amplitudeNormalise E (1 / 10) 3) envU sqrtT) 0 4 1 x).1 := by
+  refine ⟨Witness.O, fun _ _ => none, Witness.noEnv, Witness.sq, [0, 1 / 4, 1 / 2, 3 / 4], 2, by norm_num,
+    Witness.O_hilbert_linear 2, fun z => Witness.O_angle_scale (by norm_num) z,
+    fun z => Witness.O_abs_scale (by norm_num) z, fun _ _ => rfl, fun _ => rfl, rfl, ?_⟩
+  have h0 : wrap 4 0 = 0 := wrap_unique 0 (by norm_num) (by norm_num) (by norm_num)
+  have h1 : wrap 4 1 = 1 := wrap_unique 0 (by norm_num) (by norm_num) (by norm_num)
+  norm_num [frequencyTransform, Analytic.quadH, amplitudeNormalise, Witness.O, Witness.sq, clip1,
+    quadImag?, quadMask, diff, h0, h1]
+
+/-! ## the non-oscillatory column: NaN amplitude -/
+
+/-- `nht` / `quad` on a column for which `interp_envelope(mode='upper')` returns `None`
+    (fewer peaks than the envelope needs, e.g. a ramp or a constant): the amplitude is NaN at
+    every sample — silently, no error — while phase and frequency are computed as usual. -/
+theorem ft_nht_nonoscillatory (O : Analytic) (norm : List Rat → List Rat)
+    (envU : List Rat → Option (List Rat)) (halfPi twoPi sr : Rat) (x : List Rat)
+    (h : envU x = none) :
+    (frequencyTransform (O.nhtH norm envU) halfPi twoPi sr x).2.2 = List.replicate x.length none := by
+  simp [frequencyTransform, Analytic.nhtH, h, ampOfEnv]
+
+theorem ft_quad_nonoscillatory (O : Analytic) (norm : List Rat → List Rat)
+    (envU : List Rat → Option (List Rat)) (sqrtT : List Rat → List Rat) (halfPi twoPi sr : Rat)
+    (x : List Rat) (h : envU x = none) :
+    (frequencyTransform (O.quadH norm envU sqrtT) halfPi twoPi sr x).2.2
+      = List.replicate x.length none := by
+  simp [frequencyTransform, Analytic.quadH, h, ampOfEnv]
+
+/-- Conversely the amplitude of `nht` / `quad` is NaN-free exactly when the upper envelope
+    exists, and then it is that envelope. -/
+theorem ft_nht_amplitude_is_envelope (O : Analytic) (norm : List Rat → List Rat)
+    (envU : List Rat → Option (List Rat)) (sqrtT : List Rat → List Rat) (halfPi twoPi sr : Rat)
+    (x e : List Rat) (h : envU x = some e) :
+    (frequencyTransform (O.nhtH norm envU) halfPi twoPi sr x).2.2 = e.map some ∧
+    (frequencyTransform (O.quadH norm envU sqrtT) halfPi twoPi sr x).2.2 = e.map some := by
+  simp [frequencyTransform, Analytic.nhtH, Analytic.quadH, h, ampOfEnv]
+
+/-- The `hilbert` method never returns a NaN amplitude. -/
+theorem ft_hilbert_amplitude_finite (O : Analytic) (halfPi twoPi sr : Rat) (x : List Rat) :
+    ∀ a ∈ (frequencyTransform O.hilbertH halfPi twoPi sr x).2.2, a.isSome := by
+  intro a ha
+  simp only [frequencyTransform, Analytic.hilbertH, List.mem_map] at ha
+  obtain ⟨_, _, rfl⟩ := ha
+  rfl
+
+/-- On a column without combined envelope the `nht` phase is that of the plain Hilbert method
+    (the normalisation is the identity there). -/
+theorem ft_nht_no_envelope_phase (O : Analytic) (E : Nat → List Rat → Option (List Rat)) (thresh : Rat)
+    (maxIters : Nat) (envU : List Rat → Option (List Rat)) (halfPi twoPi sr : Rat) (x : List Rat)
+    (h : E 0 x = none) :
+    let r := frequencyTransform (O.nhtH (amplitudeNormalise E thresh maxIters) envU) halfPi twoPi sr x
+    let rh := frequencyTransform O.hilbertH halfPi twoPi sr x
+    r.1 = rh.1 ∧ r.2.1 = rh.2.1 := by
+  simp [frequencyTransform, Analytic.nhtH, Analytic.hilbertH, amplitudeNormalise, h]
 
 /-- Without an envelope (too few extrema) the signal is returned unchanged. -/
 theorem amplitudeNormalise_no_envelope (E : Nat → List Rat → Option (List Rat)) (thresh : Rat)
@@ -181,6 +312,23 @@ theorem amplitudeNormalise_sign (E : Nat → List Rat → Option (List Rat)) (th
   · rename_i env he
     exact ⟨anLoop_length E thresh hE _ _ _ _ (hE _ _ _ he),
       anLoop_sign E thresh hE hp _ _ _ _ (hE _ _ _ he) (hp _ _ _ he)⟩
+
+/-- Positivity of the envelopes cannot be weakened to "never zero": with a negative envelope
+    (length-preserving, nowhere zero) the normalised sample has the opposite sign.  Real library:
+    the `splrep` combined envelope of some noise records dips below 0 and
+    `amplitude_normalise(interp_method='splrep')` flips signs there (harness corpus), which is why
+    `PosEnv` is validated on every run and assumed for the pchip interpolants only. -/
+theorem amplitudeNormalise_sign_needs_posEnv :
+    ∃ (E : Nat → List Rat → Option (List Rat)) (x : List Rat),
+      (∀ k y env, E k y = some env → env.length = y.length) ∧
+      (∀ k y env, E k y = some env → ∀ e ∈ env, e ≠ 0) ∧
+      0 < getR x 0 ∧ ¬ 0 < getR (amplitudeNormalise E (1 / 10) 3 x) 0 := by
+  refine ⟨fun _ y => some (y.map fun _ => -1), [1], ?_, ?_, by norm_num [getR], ?_⟩
+  · intro k y env h; cases h; simp
+  · intro k y env h e he; cases h
+    simp only [List.mem_map] at he
+    obtain ⟨_, _, rfl⟩ := he; norm_num
+  · norm_num [amplitudeNormalise, anLoop, getR, absR, sumR]
 
 /-- The quadrature signal has unit modulus: with `s[i]² = 1 − nX[i]²` (the sqrt table),
     `nX[i]² + q[i]² = 1` at every sample, and `q` has the input's length. -/
@@ -284,23 +432,60 @@ example : Slow (6 / 2) [0, 2, 4, 13 / 2, 9, 8, 10] := by
 -- interior / edge indices exist: n = 4, i ∈ {1, 2}
 example : (1 : Nat) ≤ 2 ∧ 2 + 1 < [(1 : Rat), 2, 4, 8].length := by decide
 
--- the scale hypothesis of `ft_scale_invariant` holds for a genuinely homogeneous oracle
--- (phase table fixed, amplitude proportional to the first sample)
-example (c : Rat) (x : List Rat) :
-    (fun y : List Rat => ([0, 1, 2], [y.headD 0])) (x.map fun v => c * v)
-      = (((fun y : List Rat => ([0, 1, 2], [y.headD 0])) x).1,
-         ((fun y : List Rat => ([0, 1, 2], [y.headD 0])) x).2.map fun a => c * a) := by
-  cases x <;> simp
-
--- a homogeneous envelope oracle (every sample divided by the first one): the hypotheses of
--- `amplitudeNormalise_scale_free` hold for x = [2, -4, 6], c = 3, and the theorem applies
+-- the hypotheses of the three scale theorems are met together by the toy library `Witness.O`
+-- (linear `hilbert`, scale-invariant `angle`, homogeneous `abs`) and the homogeneous envelope
+-- oracle `Witness.E`, on x = [2, -4, 6], c = 3; the theorems apply
 example :
-    let E : Nat → List Rat → Option (List Rat) := fun _ y => some (y.map fun _ => y.headD 0)
-    amplitudeNormalise E (1 / 10) 3 ([2, -4, 6].map fun v => 3 * v)
-      = amplitudeNormalise E (1 / 10) 3 [2, -4, 6] := by
-  intro E
-  exact amplitudeNormalise_scale_free E (1 / 10) 3 3 [2, -4, 6] (by norm_num) (by norm_num)
-    [2, 2, 2] (by simp [E]) (by simp [E])
+    let r := frequencyTransform Witness.O.hilbertH 1 6 100 [2, -4, 6]
+    frequencyTransform Witness.O.hilbertH 1 6 100 (smul 3 [2, -4, 6]) = (r.1, r.2.1, smulAmp 3 r.2.2) :=
+  ft_hilbert_scale Witness.O 1 6 100 3 [2, -4, 6] (by norm_num) (Witness.O_hilbert_linear 3 _)
+    (fun z => Witness.O_angle_scale (by norm_num) z) (fun z => Witness.O_abs_scale (by norm_num) z)
+
+example : Witness.E 0 [2, -4, 6] = some [2, 2, 2] ∧
+    Witness.E 0 (smul 3 [2, -4, 6]) = some (smul 3 [2, 2, 2]) := by
+  constructor <;> norm_num [Witness.E, smul, absR]
+
+example :
+    let H := Witness.O.nhtH (amplitudeNormalise Witness.E (1 / 10) 3) (Witness.E 0)
+    let r := frequencyTransform H 1 6 100 [2, -4, 6]
+    frequencyTransform H 1 6 100 (smul 3 [2, -4, 6]) = (r.1, r.2.1, smulAmp 3 r.2.2) :=
+  ft_nht_scale Witness.O Witness.E (1 / 10) 3 (Witness.E 0) 1 6 100 3 [2, -4, 6] (by norm_num) (by norm_num)
+    [2, 2, 2] (by norm_num [Witness.E, absR]) (by norm_num [Witness.E, smul, absR])
+    (Witness.E_homogeneous (by norm_num) 0 _)
+
+example :
+    let H := Witness.O.quadH (amplitudeNormalise Witness.E (1 / 10) 3) (Witness.E 0) Witness.sq
+    let r := frequencyTransform H 1 6 100 [2, -4, 6]
+    frequencyTransform H 1 6 100 (smul 3 [2, -4, 6]) = (r.1, r.2.1, smulAmp 3 r.2.2) :=
+  ft_quad_scale Witness.O Witness.E (1 / 10) 3 (Witness.E 0) Witness.sq 1 6 100 3 [2, -4, 6] (by norm_num)
+    (by norm_num) [2, 2, 2] (by norm_num [Witness.E, absR]) (by norm_num [Witness.E, smul, absR])
+    (Witness.E_homogeneous (by norm_num) 0 _)
+
+-- `ft_nht_scale_any` on a column without envelope (2 samples: `Witness.E` answers `none`)
+example :
+    let H := Witness.O.nhtH (amplitudeNormalise Witness.E (1 / 10) 3) (Witness.E 0)
+    let r := frequencyTransform H 1 6 100 [2, -4]
+    Witness.E 0 [2, -4] = none ∧
+    frequencyTransform H 1 6 100 (smul 3 [2, -4]) = (r.1, r.2.1, smulAmp 3 r.2.2) :=
+  ⟨by simp [Witness.E],
+   ft_nht_scale_any Witness.O Witness.E (1 / 10) 3 (Witness.E 0) 1 6 100 3 [2, -4] (by norm_num) (by norm_num)
+    (Witness.O_hilbert_linear 3 _) (fun z => Witness.O_angle_scale (by norm_num) z)
+    (Witness.E_homogeneous (by norm_num) 0 _) (Witness.E_homogeneous (by norm_num) 0 _)⟩
+
+-- the non-oscillatory hypothesis is met by `Witness.E 0` on a 2-sample column, and the amplitude
+-- really is NaN at both samples
+example : (frequencyTransform (Witness.O.nhtH id (Witness.E 0)) 1 6 100 [2, -4]).2.2 = [none, none] :=
+  ft_nht_nonoscillatory Witness.O id (Witness.E 0) 1 6 100 [2, -4] (by simp [Witness.E])
+
+-- the hypotheses of `amplitudeNormalise_scale_free` hold for x = [2, -4, 6], c = 3
+example :
+    amplitudeNormalise Witness.E (1 / 10) 3 (smul 3 [2, -4, 6])
+      = amplitudeNormalise Witness.E (1 / 10) 3 [2, -4, 6] :=
+  amplitudeNormalise_scale_free Witness.E (1 / 10) 3 3 [2, -4, 6] (by norm_num) (by norm_num)
+    [2, 2, 2] (by norm_num [Witness.E, absR]) (by norm_num [Witness.E, smul, absR])
+
+-- short and long input of `frequencyTransform?`
+example : ([] : List Rat).length < 2 ∧ [(1 : Rat)].length < 2 ∧ 2 ≤ [(1 : Rat), 2].length := by decide
 
 -- the sqrt-table hypothesis of `quad_unit_modulus` on a 3-4-5 sampled half cycle
 example : ∀ i, i < [(0 : Rat), 3 / 5, 1, 3 / 5].length →
